@@ -423,6 +423,10 @@ def run(prog, rep, tier):
              'updated in place')
     if check_shared_inplace(prog, rep) < 2:
         raise AnalysisError('SITE-shared-inplace: no in-place update of a stored tensor found')
+    rep.rule('LEG-side-direction', 'a leg taken from vL on one branch and vR on the other is '
+             'conjugated on exactly one of them')
+    if check_leg_side_direction(prog, rep) < 3:
+        raise AnalysisError('LEG-side-direction: boundary leg selections in mps.py not found')
     if check_dtype_all(prog, rep) < 5:
         raise AnalysisError('DTYPE-all-tensors: dtype assignments in the network classes not found')
     rep.floor('FORM-scale-exponent', 5)
@@ -688,4 +692,116 @@ def check_shared_inplace(prog, rep):
                               'enlarge_mps_unit_cell the same object is stored at sites i and '
                               'i+L, so two sites change while norm / form bookkeeping accounts '
                               'for one' % key_text(hit)[:60], hit.lineno)
+    return n
+
+
+# ------------------------------------------------------------------ LEG-side-direction
+def _leg_reads(node):
+    """[(side, conjugated?)] of the plain virtual-leg reads `X.get_leg('vL'|'vR')[.conj()]*` in
+    `node`, in source order"""
+    out = []
+    txt_nodes = [c for c in ast.walk(node) if isinstance(c, ast.Call) and isinstance(
+        c.func, ast.Attribute) and c.func.attr == 'get_leg' and len(c.args) == 1 and
+        isinstance(c.args[0], ast.Constant) and c.args[0].value in ('vL', 'vR')]
+    for c in txt_nodes:
+        conj = 0
+        cur = c
+        while True:
+            par = getattr(cur, '_parent', None)
+            if isinstance(par, ast.Attribute) and par.attr == 'conj' and isinstance(
+                    getattr(par, '_parent', None), ast.Call):
+                conj += 1
+                cur = par._parent
+            else:
+                break
+        out.append((c.args[0].value, conj % 2 == 1, getattr(c, 'lineno', 0),
+                    getattr(c, 'col_offset', 0)))
+    out.sort(key=lambda x: (x[2], x[3]))
+    return [(a, b) for a, b, _, _ in out]
+
+
+def _leg_alternatives(f):
+    """groups of alternative readings of one virtual leg:
+    (a) a local bound in alternative branches to get_leg('vL') / get_leg('vR');
+    (b) a statement whose conditional expression selects the tensor and the label together
+        (`(B[i], 'vL') if c else (B[i-1], 'vR')`): the two arms, resolved and compared position by
+        position."""
+    from ..core import set_parents
+    from ..normal import _dc, _fold_literal_index
+    groups = []
+    nf = inline_temps(f)
+    byname = {}
+    for st in stmts_of(nf):
+        if isinstance(st, ast.Assign) and len(st.targets) == 1 and isinstance(
+                st.targets[0], ast.Name) and not any(isinstance(x, ast.IfExp)
+                                                      for x in ast.walk(st.value)):
+            reads = _leg_reads(st.value)
+            head = unparse(st.value)
+            if len(reads) == 1 and head.split('.get_leg(')[-1].replace(
+                    "'vL')", '').replace("'vR')", '').replace('.conj()', '') == '':
+                byname.setdefault(st.targets[0].id, []).append(reads[0] + (st, ))
+    for name, alts in byname.items():
+        if len({s_ for s_, _, _ in alts}) > 1:
+            groups.append((name, alts))
+
+    class Pick(ast.NodeTransformer):
+        def __init__(self, atoms):
+            self.atoms = atoms
+
+        def visit_IfExp(self, n):
+            self.generic_visit(n)
+            return n.body if self.atoms.get(unparse(n.test), True) else n.orelse
+    for st in stmts_of(nf):
+        if isinstance(st, (ast.If, ast.For, ast.While, ast.With, ast.Try)):
+            continue
+        tests = sorted({unparse(x.test) for x in ast.walk(st) if isinstance(x, ast.IfExp)})
+        if not tests or 'get_leg' not in unparse(st):
+            continue
+        versions = []
+        for t in tests[:2]:
+            pair = []
+            for val in (True, False):
+                v = Pick({t: val}).visit(_dc(st))
+                holder = ast.Module(body=[v], type_ignores=[])
+                ast.fix_missing_locations(holder)
+                _fold_literal_index(holder)
+                set_parents(holder)
+                pair.append(_leg_reads(holder))
+            versions.append(pair)
+        for a, b in versions:
+            if len(a) == len(b):
+                for (sa_, ca), (sb, cb) in zip(a, b):
+                    if sa_ != sb:
+                        groups.append(('<conditional expression>', [(sa_, ca, st), (sb, cb, st)]))
+                        break
+    return groups
+
+
+def check_leg_side_direction(prog, rep):
+    """LEG-side-direction: the virtual leg of bond i can be read as 'vL' of B[i] or as 'vR' of
+    B[i-1]; the two have opposite directions (get_charge() includes the direction). A local that
+    takes the leg from 'vL' on one branch and from 'vR' on the other (boundary of a segment /
+    finite MPS) must conjugate exactly one of them, otherwise everything computed from its
+    charges changes sign at the boundary."""
+    n = 0
+    for rel in (MPS, 'tenpy/networks/mpo.py', 'tenpy/networks/purification_mps.py'):
+        m = prog.module(rel)
+        for q, f in m.functions.items():
+            src_ = unparse(f)
+            if 'get_leg' not in src_ or "'vL'" not in src_ or "'vR'" not in src_:
+                continue
+            for name, alts in _leg_alternatives(f):
+                n += 1
+                dirs = {(side == 'vL') != conj for side, conj, _ in alts}   # True: vL-like
+                rep.instance('LEG-side-direction', {'function': q, 'local': name,
+                                                    'alternatives': [(s_, c_) for s_, c_, _ in alts],
+                                                    'consistent': len(dirs) == 1})
+                if len(dirs) != 1:
+                    st = alts[-1][2]
+                    rep.violation('LEG-side-direction', m, q, 'mixed-direction:' + name,
+                                  '`%s` is the leg %s on one branch and %s on the other: the two '
+                                  'point in opposite directions, so charges read from it '
+                                  '(get_charge includes the direction) flip sign between the '
+                                  'branches' % (name, *['%s%s' % (s_, '.conj()' if c_ else '')
+                                                        for s_, c_, _ in alts[:2]]), st.lineno)
     return n
